@@ -5,14 +5,15 @@ Line-protocol dispatch: model ops and oracle ops. Core Lean only (compiled into 
 Each property contributes a module `SafeHtml.Ops.Cxx` with `model` and `oracle`; register it below.
 -/
 import SafeHtml.Ops.C18
+import SafeHtml.Ops.Tmpl
 namespace SafeHtml.Driver
 open SafeHtml
 
 def models : List (String → List Bytes → Option String) :=
-  [Ops.C18.model]
+  [Ops.C18.model, Ops.Tmpl.model]
 
 def oracles : List (String → List Bytes → List String → Option String) :=
-  [Ops.C18.oracle]
+  [Ops.C18.oracle, Ops.Tmpl.oracle]
 
 def runModel (op : String) (a : List Bytes) : String :=
   match models.findSome? (fun f => f op a) with
